@@ -30,6 +30,7 @@ Lemma rf_alpha_beta : reset_fresh m_alpha_beta. Proof. triv. Qed.
 Lemma rf_kalman : reset_fresh m_kalman. Proof. triv. Qed.
 Lemma rf_analyze : reset_fresh m_analyze. Proof. triv. Qed.
 Lemma rf_synthesize : reset_fresh m_synthesize. Proof. triv. Qed.
+Lemma rf_peaks_slopes : reset_fresh m_peaks_slopes. Proof. triv. Qed.
 Lemma rf_id : reset_fresh m_id. Proof. intros c hist [] _. reflexivity. Qed.
 
 (* the wrapped machine's state component follows the inner machine *)
@@ -58,7 +59,7 @@ Proof.
         | apply rf_exp_median | apply rf_max | apply rf_min | apply rf_bounds | apply rf_threshold | apply rf_schmitt
         | apply rf_debounce | apply rf_slopes | apply rf_peaks | apply rf_convolve | apply rf_delay | apply rf_differentiate
         | apply rf_integrate | apply rf_hampel | apply rf_alpha_beta | apply rf_kalman | apply rf_analyze | apply rf_synthesize
-        | (apply rf_cache; first [apply rf_integrate | apply rf_median]) | (apply rf_unit; apply rf_integrate) | apply rf_id ].
+        | (apply rf_cache; first [apply rf_integrate | apply rf_median]) | (apply rf_unit; apply rf_integrate) | apply rf_id | apply rf_peaks_slopes ].
 Qed.
 
 (* the observable consequence: history, reset, probe  =  fresh filter, probe *)
